@@ -2,7 +2,9 @@
 //!   (15 ty ntapes (op ...))
 //! Observed per step: Record::index / number / which list, every container element's value and
 //! index (through view(), cross-checked with iter_as_records), derivative vectors (length and
-//! values), panics.
+//! values; for containers derivatives_for(element) is cross-checked with the whole-container
+//! derivatives() and with derivatives_for of every other element), panics; every scalar addition
+//! is cross-checked (on scratch lists) with the `Sum` entry point for the same two operands.
 #[path = "c06/recops.rs"]
 mod recops;
 
@@ -100,6 +102,88 @@ fn enc_obj<'a, T: Real + Primitive + Enc + Clone>(lists: &[WengertList<T>], o: &
         Obj::Ten(c) => enc_ten(lists, c),
         Obj::Mat(c) => enc_mat(lists, c),
         Obj::Dead => nil(),
+    }
+}
+
+/// Whole-container `derivatives()` (`all`) against `derivatives_for` of every element (`each`,
+/// row-major) and against the one requested element (`one`): constants containers give None
+/// everywhere; otherwise derivatives() panics exactly when some element's derivatives_for
+/// panics (a stale element after clear()), else it holds, per element, the same vector, and
+/// every vector has the same length (one entry per entry of the shared WengertList).
+fn whole_check<T: PartialEq>(
+    has_history: bool,
+    elem: usize,
+    one: &Option<Option<Vec<T>>>,
+    each: &[Option<Option<Vec<T>>>],
+    all: &Option<Option<Vec<Vec<T>>>>,
+) -> bool {
+    if elem < each.len() && &each[elem] != one {
+        return false;
+    }
+    if elem >= each.len() && !matches!(one, Some(None)) {
+        return false;
+    }
+    if !has_history {
+        return matches!(all, Some(None)) && each.iter().all(|e| matches!(e, Some(None)));
+    }
+    if each.iter().any(|e| e.is_none()) {
+        return all.is_none();
+    }
+    match all {
+        Some(Some(v)) => {
+            v.len() == each.len()
+                && v.iter().zip(each).all(|(a, e)| matches!(e, Some(Some(d)) if d == a))
+                && v.windows(2).all(|w| w[0].len() == w[1].len())
+        }
+        _ => false,
+    }
+}
+
+/// `iter.sum::<Record<T>>()` is documented as "the same as adding a bunch of Record types
+/// together".  Checked on scratch copies of the two operands of every scalar addition (same
+/// numbers; constants stay constants; two scratch lists exactly when the operands live on two
+/// different lists), so that the script's own lists are not touched: `x + y` and
+/// `[x, y].into_iter().sum()` must both panic (operands of two lists) or both give the same
+/// number on the same list with the same derivatives with respect to x and y.
+/// (Harness-only cross-check: the Sum entry point has no operation in the case language.)
+fn sum_agrees<T>(x: &Record<T>, y: &Record<T>) -> bool
+where
+    T: Real + Primitive + Clone + PartialEq + 'static,
+    for<'t> &'t T: RealRef<T>,
+{
+    let s1 = WengertList::new();
+    let s2 = WengertList::new();
+    let same = match (x.history(), y.history()) {
+        (Some(a), Some(b)) => std::ptr::eq(a, b),
+        _ => true,
+    };
+    let u = match x.history() {
+        Some(_) => Record::variable(x.number.clone(), &s1),
+        None => Record::constant(x.number.clone()),
+    };
+    let w = match y.history() {
+        Some(_) => Record::variable(y.number.clone(), if same { &s1 } else { &s2 }),
+        None => Record::constant(y.number.clone()),
+    };
+    let plus = guarded(|| u.clone() + w.clone());
+    let sum = guarded(|| vec![u.clone(), w.clone()].into_iter().sum::<Record<T>>());
+    match (plus, sum) {
+        (None, None) => true,
+        (Some(p), Some(q)) => {
+            if p.number != q.number || !same_opt(p.history(), q.history()) {
+                return false;
+            }
+            let dp = guarded(|| p.try_derivatives().map(Vec::from));
+            let dq = guarded(|| q.try_derivatives().map(Vec::from));
+            match (dp, dq) {
+                (Some(None), Some(None)) => true,
+                (Some(Some(a)), Some(Some(b))) => {
+                    [&u, &w].iter().all(|r| r.history().is_none() || a.get(r.index) == b.get(r.index))
+                }
+                _ => false,
+            }
+        }
+        _ => false,
     }
 }
 
@@ -250,7 +334,12 @@ where
             let (dst, mode, bcode, a, b, form) =
                 (v[1].usize()?, v[2].i64()?, v[3].i64()?, v[4].usize()?, v[5].usize()?, v[6].usize()?);
             let r = match (regs.get(a).unwrap_or(&dead), regs.get(b).unwrap_or(&dead)) {
-                (Obj::Rec(x), Obj::Rec(y)) => rec_bin::<T>(bcode, x, y, form)?.map(Obj::Rec),
+                (Obj::Rec(x), Obj::Rec(y)) => {
+                    if bcode == 0 && !sum_agrees::<T>(x, y) {
+                        return Some(inconsistent(156));
+                    }
+                    rec_bin::<T>(bcode, x, y, form)?.map(Obj::Rec)
+                }
                 (Obj::Ten(x), Obj::Ten(y)) => ten_bin::<T, _, _, 2>(mode, bcode, x, y, form)?.map(Obj::Ten),
                 (Obj::Mat(x), Obj::Mat(y)) => mat_bin::<T, _, _>(mode, bcode, x, y, form)?.map(Obj::Mat),
                 _ => return Some(skipped()),
@@ -281,12 +370,31 @@ where
                 }
                 Obj::Ten(x) => {
                     let sh = x.shape();
-                    let idx = [elem / sh[1].1, elem % sh[1].1];
-                    guarded(|| x.derivatives_for(idx).map(Vec::from))
+                    let cols = sh[1].1;
+                    let idx = [elem / cols, elem % cols];
+                    let one = guarded(|| x.derivatives_for(idx).map(Vec::from));
+                    // the whole-container derivatives() against derivatives_for of EVERY element
+                    let each: Vec<_> = (0..sh[0].1 * cols)
+                        .map(|e| guarded(|| x.derivatives_for([e / cols, e % cols]).map(Vec::from)))
+                        .collect();
+                    let all = guarded(|| x.derivatives().map(|t| t.iter().map(Vec::from).collect::<Vec<Vec<T>>>()));
+                    if !whole_check(x.history().is_some(), elem, &one, &each, &all) {
+                        return Some(inconsistent(154));
+                    }
+                    one
                 }
                 Obj::Mat(x) => {
                     let cols = x.columns();
-                    guarded(|| x.derivatives_for(elem / cols, elem % cols).map(Vec::from))
+                    let one = guarded(|| x.derivatives_for(elem / cols, elem % cols).map(Vec::from));
+                    let each: Vec<_> = (0..x.rows() * cols)
+                        .map(|e| guarded(|| x.derivatives_for(e / cols, e % cols).map(Vec::from)))
+                        .collect();
+                    let all =
+                        guarded(|| x.derivatives().map(|m| m.row_major_iter().map(Vec::from).collect::<Vec<Vec<T>>>()));
+                    if !whole_check(x.history().is_some(), elem, &one, &each, &all) {
+                        return Some(inconsistent(155));
+                    }
+                    one
                 }
                 Obj::Dead => return Some(skipped()),
             };
